@@ -285,7 +285,9 @@ class DirichletOperator(MCMCOperator):
         self._scaler = math.exp(-value)
 
     def _step(self) -> Tensor:
-        old_values = self.parameters[0].tensor
+        # a copy: the tensor of a ViewParameter is a view of its base, which the
+        # assignment of the proposal below overwrites in place
+        old_values = self.parameters[0].tensor.clone()
         scaled_old = old_values * self._scaler
         dist_old = torch.distributions.Dirichlet(scaled_old)
         new_values = dist_old.sample()
